@@ -18,7 +18,7 @@ echo "self-test against /repo HEAD $(git -C /repo rev-parse --short HEAD) on $(d
 for d in /verif/seeded/*/; do
   name=$(basename "$d")
   [ -n "${1:-}" ] && [[ "$name" != *"$1"* ]] && continue
-  prop=$(python3 -c "import json;print(json.load(open('$d/meta.json'))['property'])")
+  prop=$(python3 -c "import json;m=json.load(open('$d/meta.json'));print(m.get('check_property',m['property']))")
   if ! git -C "$ST/repo" apply --3way "$d/patch.diff" >/dev/null 2>&1; then
     git -C "$ST/repo" checkout -- . ; git -C "$ST/repo" reset -q --hard
     echo "$name ($prop): patch no longer applies to HEAD (skipped)" | tee -a "$OUT.new"; continue
